@@ -305,6 +305,34 @@ theorem C15_D16_witness :
   revert h
   decide
 
+/-! ### H2: `--name=` with nothing after the `=` (`def f(a, x=…)`, `py f --x= 5`) -/
+
+/-- `def f(a, x=<default>)` -/
+def specH2 : ArgSpec := ⟨[['a'], ['x']], 1, false, [], [], false⟩
+
+/-- the code as it stands: `--x=` swallows the next argument, so `a` is missing … -/
+theorem witness_H2_swallows :
+    parseAutoApply (envW false) specH2 [w "--x=", w "5"] [] .string = .error .missingRequired := by decide
+
+/-- … and as the last argument it is a `Missing argument` error; -/
+theorem witness_H2_last :
+    parseAutoApply (envW false) specH2 [w "5", w "--x="] [] .string = .error .missingArgEnd := by decide
+
+/-- with `fixes/C15-H2.diff` both are the Python call `f('5', x='')`. -/
+theorem witness_H2_fixed :
+    parseAutoApply { envW false with eqValue := true } specH2 [w "--x=", w "5"] [] .string
+        = .ok ([.raw (w "5"), .raw []], []) ∧
+      parseAutoApply { envW false with eqValue := true } specH2 [w "5", w "--x="] [] .string
+        = .ok ([.raw (w "5"), .raw []], []) := by decide
+
+/-- **C15_eq_value.**  With the fix an option written with `=` never takes the next argument, whatever
+    follows the `=`; as the code stands it does so exactly when nothing follows.  Without `=` both read the next. -/
+theorem C15_eq_value (env : Env) (v : Str) :
+    takesNext env false [] = true ∧
+    (env.eqValue = true → takesNext env true v = false) ∧
+    (env.eqValue = false → takesNext env true v = v.isEmpty) := by
+  refine ⟨by simp [takesNext], fun h => by simp [takesNext, h], fun h => by simp [takesNext, h]⟩
+
 end Witness
 
 /-- **C15_last_wins.**  In the equivalent call every parameter receives the
